@@ -34,16 +34,25 @@ fn eval_all(vm: &mut Vm, mut text: &str) -> String {
 fn main() {
     panic::set_hook(Box::new(|_| {}));
     let stdin = std::io::stdin();
+    // VERIF_REPLAY_SHARED=1: sessions are independent pure expressions; reuse one Vm (recreated after a panic)
+    let shared = std::env::var("VERIF_REPLAY_SHARED").is_ok();
+    let mut keep: Option<Vm> = None;
     for (idx, line) in stdin.lock().lines().enumerate() {
         let line = line.unwrap();
-        let r = panic::catch_unwind(|| {
-            let mut vm = Vm::new();
+        let mut vm = match keep.take() {
+            Some(vm) => vm,
+            None => Vm::new(),
+        };
+        let r = panic::catch_unwind(panic::AssertUnwindSafe(|| {
             let mut out = String::new();
             for form in line.split(";;") {
                 out = eval_all(&mut vm, form);
             }
             out
-        });
+        }));
+        if shared && r.is_ok() {
+            keep = Some(vm);
+        }
         match r {
             Ok(s) => println!("RESULT {} {}", idx, s.replace('\n', "\\n")),
             Err(e) => {
